@@ -15,6 +15,7 @@ import (
 	"github.com/corazawaf/coraza/v3/experimental/plugins/plugintypes"
 	"github.com/corazawaf/coraza/v3/internal/collections"
 	"github.com/corazawaf/coraza/v3/internal/environment"
+	"github.com/corazawaf/coraza/v3/internal/verifhook"
 )
 
 type multipartBodyProcessor struct{}
@@ -61,6 +62,10 @@ func (mbp *multipartBodyProcessor) ProcessRequest(reader io.Reader, v plugintype
 			seenUnexpectedEOF := false
 			if environment.HasAccessToFS {
 				// Only copy file to temp when not running in TinyGo
+				if err := verifhook.Fault("multipart.createtemp"); err != nil {
+					v.MultipartStrictError().(*collections.Single).Set("1")
+					return err
+				}
 				temp, err := os.CreateTemp(storagePath, "crzmp*")
 				if err != nil {
 					v.MultipartStrictError().(*collections.Single).Set("1")
@@ -71,6 +76,9 @@ func (mbp *multipartBodyProcessor) ProcessRequest(reader io.Reader, v plugintype
 				// transaction is closed even if copying the upload fails.
 				filesTmpNamesCol.Add("", temp.Name())
 				sz, err := io.Copy(temp, p)
+				if verifhook.Enabled {
+					err = verifhook.FaultOr("multipart.copy", err)
+				}
 				if err != nil {
 					if !errors.Is(err, io.ErrUnexpectedEOF) {
 						v.MultipartStrictError().(*collections.Single).Set("1")
